@@ -1541,7 +1541,8 @@ class PVGTraversal():
 
         curs = list(self.stack[out_node].values())
 
-        is_circ_rna = any(x.variant.is_circ_rna() for x in out_node.variants)
+        is_circ_rna = self.circ_rna is not None \
+            or any(x.variant.is_circ_rna() for x in out_node.variants)
 
         if self.known_orf_aa[0] is not None:
             if out_node.reading_frame_index == self.known_reading_frame_index():
